@@ -36,10 +36,10 @@ def main():
         per = 25
         for i in range(0, len(feats), per):
             cases.append({"seed": rng.randrange(1 << 30), "nobj": 4, "features": feats[i:i + per],
-                          "via": rng.choice(["path", "fileobj"]), "suffix": rng.choice([".eds", ".dcf", ".EDS"])})
+                          "via": rng.choice(["path", "path", "fileobj", "node"]), "suffix": rng.choice([".eds", ".dcf", ".EDS"])})
         for _ in range(150 if args.tier == "quick" else 3000):
             cases.append({"seed": rng.randrange(1 << 30), "nobj": rng.randrange(4, 16),
-                          "via": rng.choice(["path", "fileobj"]), "suffix": rng.choice([".eds", ".dcf"])})
+                          "via": rng.choice(["path", "path", "fileobj", "node"]), "suffix": rng.choice([".eds", ".dcf"])})
     results = run_cases("harness.drv_eds:import_case", cases, jobs=args.jobs, timeout=120)
     if any(r.get("hang") for r in results):
         raise RuntimeError("driver hang")
